@@ -284,6 +284,7 @@ package plugin
 //@   requires wfstep(r) && held(r.lock) && lockinv(r)
 //@   ensures [second-hand-over-refused] old(r.deployInputAvailable) ==> result != nil && !sentnow(r.deployInput)
 //@   ensures [first-hand-over-recorded] !old(r.deployInputAvailable) && result == nil ==> r.deployInputAvailable
+//@   ensures [a-step-given-its-input-no-longer-reports-waiting] result == nil && r.currentStage == StageIDDeploy ==> r.state != step.RunningStepStateWaitingForInput
 //@   ensures [lock-invariant-kept] lockinv(r)
 //
 //@ func (*runningStep).provideEnablingInput
@@ -291,12 +292,14 @@ package plugin
 //@   ensures [second-hand-over-refused] old(r.enabledInputAvailable) ==> result != nil && !sentnow(r.enabledInput)
 //@   ensures [first-hand-over-recorded] !old(r.enabledInputAvailable) ==> result == nil && r.enabledInputAvailable && sentnow(r.enabledInput)
 //@   ensures [enabled-iff-absent-or-true] !old(r.enabledInputAvailable) ==> lastsent(r.enabledInput) == (input["enabled"] == nil || input["enabled"] == any(true))
+//@   ensures [a-step-given-its-input-no-longer-reports-waiting] result == nil && r.currentStage == StageIDEnabling ==> r.state != step.RunningStepStateWaitingForInput
 //@   ensures [lock-invariant-kept] lockinv(r)
 //
 //@ func (*runningStep).provideStartingInput
 //@   requires wfstep(r) && held(r.lock) && lockinv(r)
 //@   ensures [second-hand-over-refused] old(r.runInputAvailable) ==> result != nil && !sentnow(r.runInput)
 //@   ensures [first-hand-over-recorded] !old(r.runInputAvailable) && result == nil ==> r.runInputAvailable && sentnow(r.runInput) && lastsent(r.runInput).stepInputData == input["input"]
+//@   ensures [a-step-given-its-input-no-longer-reports-waiting] result == nil && r.currentStage == StageIDStarting ==> r.state != step.RunningStepStateWaitingForInput
 //@   ensures [lock-invariant-kept] lockinv(r)
 //
 //@ func (*runningStep).provideCancelledInput
